@@ -55,6 +55,35 @@ def batch_len_term_ok(prog, f, t):
     return True
 
 
+def location_fixups(prog, p):
+    """Updates of an allocated entity's location *index* on path p, however they are spelled: the allocator's
+    `modify_location_index_unchecked(identifier, index)`, or a store into `Location.index` of the slot selected by an
+    identifier's index (the same method written out, e.g. in a helper the rule set has never seen).
+    -> [{'i', 'ln', 'ident' (ref-stripped term), 'new' (term)}]"""
+    S = pathsem.strip_refs
+    out = []
+    for e in p.calls(lambda e: e['name'] == 'modify_location_index_unchecked'):
+        out.append({'i': e['i'], 'ln': e['ln'], 'ident': S(e['args'][1]), 'new': e['args'][2]})
+    try:
+        li = adt_field_index(prog, 'entity::allocator::location::Location', 'index')
+        si = adt_field_index(prog, 'entity::allocator::Allocator', 'slots')
+        ii = adt_field_index(prog, 'entity::identifier::Identifier', 'index')
+    except Exception:
+        return out
+    for e in p.events:
+        if e['k'] != 'store' or e.get('synthetic') or not pathsem.is_field_of(e['loc'], 'entity::allocator::location::Location', li):
+            continue
+        sel = [t for t in pathsem.subterms(e['loc']) if t[0] == 'call' and t[1].rsplit('::', 1)[-1] in ('get_unchecked_mut', 'get_mut', 'index_mut')
+               and len(t[2]) == 2 and pathsem.mentions(t[2][0], lambda u: pathsem.is_field_of(u, 'entity::allocator::Allocator', si))]
+        for t in sel:
+            k = S(t[2][1])
+            if pathsem.is_field_of(k, 'entity::identifier::Identifier', ii):
+                out.append({'i': e['i'], 'ln': e.get('ln'), 'ident': S(k[1]), 'new': e['value']})
+                break
+    out.sort(key=lambda x: x['i'])
+    return out
+
+
 @rule('P4', props=['C01', 'C02', 'C13', 'C05', 'C03', 'C06', 'C04'], floor=2)
 def p4_swap_remove_fixup(prog):
     """Wherever the archetype's identifier column is swap_removed at `index`, the entity that the swap moves into
@@ -164,7 +193,7 @@ def p4_swap_remove_fixup(prog):
                         if (before and row == L - 1) or ((not before) and row == i):
                             return True
                     return False
-                if deferred is not False and not any(q.calls(lambda e: e['name'] == 'modify_location_index_unchecked') for q in rets):
+                if deferred is not False and not any(location_fixups(prog, q) for q in rets):
                     # the function does not fix the moved entity's location itself: it may hand the obligation to its
                     # callers by returning the moved identifier (Some exactly when a row was moved)
                     for p, sw, leaf, vlen in feas:
@@ -184,19 +213,19 @@ def p4_swap_remove_fixup(prog):
                     if deferred is not False:
                         continue
                 for p, sw, leaf, vlen in feas:
-                    fixes = p.calls(lambda e: e['name'] == 'modify_location_index_unchecked')
+                    fixes = location_fixups(prog, p)
                     if i < L - 1:
                         if not fixes:
-                            once('no-fixup' if not any(q.calls(lambda e: e['name'] == 'modify_location_index_unchecked') for q in rets) else 'wrong-guard', sw['ln'],
+                            once('no-fixup' if not any(location_fixups(prog, q) for q in rets) else 'wrong-guard', sw['ln'],
                                  'index=%d of %d rows: the last row is swapped into `index` but its entity\'s location index is not updated (guard equivalent to index < rows - 1 expected)' % (i, L))
                             continue
                         if len(fixes) > 1:
                             once('wrong-guard', fixes[1]['ln'], 'the moved entity\'s location is updated more than once')
                         fx = fixes[0]
-                        ni = pathsem.evaluate(fx['args'][2], leaf)
+                        ni = pathsem.evaluate(fx['new'], leaf)
                         if ni != i:
                             once('wrong-new-index', fx['ln'], 'location fix-up does not store the swap_remove index as the moved entity\'s new index (index=%d of %d rows: stores %s)' % (i, L, ni))
-                        ident = S(fx['args'][1])
+                        ident = fx['ident']
                         reads = [t for t in pathsem.subterms(ident) if t[0] == 'call' and is_idvec(t) and t[1].rsplit('::', 1)[-1] in ('last', 'get', 'get_unchecked', 'index', 'first', 'get_mut', 'get_unchecked_mut', 'last_mut')]
                         okid = False
                         for t in reads:
@@ -214,7 +243,7 @@ def p4_swap_remove_fixup(prog):
                             once('wrong-identifier', fx['ln'], 'the entity whose location is fixed up is not the one the swap moves (row rows-1 before the swap / row `index` after it)')
                     else:
                         if fixes:
-                            once('unguarded-fixup' if all(q.calls(lambda e: e['name'] == 'modify_location_index_unchecked') for q in rets) else 'wrong-guard', fixes[0]['ln'],
+                            once('unguarded-fixup' if all(location_fixups(prog, q) for q in rets) else 'wrong-guard', fixes[0]['ln'],
                                  'index=%d is the last of %d rows: nothing is swapped in, yet a location index is rewritten' % (i, L))
         if deferred not in (None, False) and not rep:
             deferred_fns.append((f, deferred))
@@ -241,11 +270,11 @@ def p4_swap_remove_fixup(prog):
                         continue
                     payload = ('f', ('down', opt, 'Some', 1), 0, 'core::option::Option')
                     idx_arg = S(e['args'][1]) if len(e['args']) > 1 else None
-                    fx = [q for q in p.calls(lambda q: q['name'] == 'modify_location_index_unchecked' and q['i'] > e['i']) if S(q['args'][1]) == payload]
+                    fx = [q for q in location_fixups(prog, p) if q['i'] > e['i'] and q['ident'] == payload]
                     if len(fx) != 1:
                         bad = bad or 'a row was moved (Some) but its entity\'s location index is updated %d times' % len(fx)
-                    elif S(fx[0]['args'][2]) != idx_arg:
-                        bad = bad or 'the moved entity\'s new index (%s) is not the index its row was swapped into (%s, the value passed to %s)' % (pathsem.tstr(fx[0]['args'][2])[:50], pathsem.tstr(idx_arg)[:40], f.name)
+                    elif S(fx[0]['new']) != idx_arg:
+                        bad = bad or 'the moved entity\'s new index (%s) is not the index its row was swapped into (%s, the value passed to %s)' % (pathsem.tstr(fx[0]['new'])[:50], pathsem.tstr(idx_arg)[:40], f.name)
             if bad or Eg.truncated:
                 r.viol('P4', '%s/deferred-fixup' % g.path, g.loc(), bad or 'path enumeration cut off')
     return r
